@@ -442,6 +442,22 @@ def run(pid, tier):
     results, reports = fam.execute(binary, scs)
     # liveness stand-ins are re-executed: a one-off stall on a loaded machine is not evidence
     confirm_liveness(fam, binary, results)
+    if pid == "C12":
+        # the base client's retry handles: a request made before Connect transmitted nothing, so the first PUBLISH that
+        # reaches the wire afterwards (through a handle, if the error offers one) is a first transmission (DUP=0)
+        pre = [{"id": "pre-%s" % k, "mode": "preconnect", "kind": k} for k in ("pub1", "pub2", "pub0")]
+        pp = vlib.run_drive(binary, ["run", "errchain", "-j", "2", "-c", "1", "-timeout", "60s"], stdin="\n".join(json.dumps(x) for x in pre) + "\n", timeout=300)
+        if pp.returncode != 0:
+            raise vlib.Infra("errchain driver failed: " + pp.stderr[-1000:])
+        for line in pp.stdout.splitlines():
+            if not line.strip():
+                continue
+            r = json.loads(line)
+            if r.get("infra") or "crash" in r:
+                raise vlib.Infra("errchain preconnect: %s" % line[:300])
+            if r.get("dups") and r["dups"][0]:
+                fam.verd.witness("C12_FirstTransmissionDup", r["kind"], "%s before Connect failed (retry handle offered: %s); after Connect the first PUBLISH on the wire has DUP=1"
+                                 % (r["kind"], r["handle"]), {"scenario": next(x for x in pre if x["id"] == r["id"]), "result": r})
     # Layer 2 conformance: are the recorded traces behaviours of the implementation-shaped model?
     # A trace the model rejects is DRIFT (the exhaustive result below no longer transfers to this code),
     # never a verdict.  Quick: the first 10 workload groups; thorough: everything eligible.
